@@ -161,7 +161,8 @@ JudgeInit(sc, w0, w1, r) ==
              "init returned earlier than 120 ms after sleep-out")
       \o Chk("sleep_spacing" \notin (c.flags \ w0.ctl.flags), r, {"C13"}, "sleep-in/out commands less than 120 ms apart")
       \o Chk(resetOk, r, {"C17"}, "reset sequence malformed")
-      \o Chk(w1.wflags \cap {"sampled_unknown", "dc_unknown"} = {}, r, {"C17", IF cfg.iface = "spi" THEN "C06" ELSE "C07"},
+      \o Chk(w1.wflags \cap {"sampled_unknown", "dc_unknown"} = {}, r,
+             {"C17", IF cfg.iface = "spi" THEN "C06" ELSE "C07"} \cup (IF sc.tag = "colour" THEN {"C05"} ELSE {}),
              "a word was put on the bus while a data / D/C line had never been driven")
       \o Chk(r.name # "init" \/ (r.obs.rot = cfg.rot /\ r.obs.mir = cfg.mir /\ r.obs.sleeping = FALSE
                                    /\ r.obs.size = LogicalSize(cfg, Orient0(sc))), r, {"C10", "C13"},
@@ -219,7 +220,8 @@ JudgeAlways(sc, d1, w0, w1, r) ==
   \o Chk(w1.ctl.madctl = MadctlOf(sc.cfg.bgr, d1.orient, sc.cfg.refv, sc.cfg.refh), r, {"C10"},
          "controller address mode differs from the last orientation set")
   \o Chk(w1.wflags \cap {"sampled_unknown", "dc_unknown"} = {}, r,
-         IF sc.cfg.iface = "spi" THEN {"C06"} ELSE {"C07"}, "a word was put on the bus while a data / D/C line had never been driven")
+         (IF sc.cfg.iface = "spi" THEN {"C06"} ELSE {"C07"}) \cup (IF sc.tag = "colour" THEN {"C05"} ELSE {}),
+         "a word was put on the bus while a data / D/C line had never been driven")
   \o Chk(w1.ctl.colmod % 8 = ColmodFor(sc.cfg.colour) % 8, r, {"C05", "C11"},
          "the interface pixel format in the controller no longer matches the colour type")
 
